@@ -896,5 +896,90 @@ Proof.
     + apply nth_overflow. rewrite map_length, seq_length. lia.
     + rewrite <- (HT (S j')) by lia. cbn [seq map nth]. reflexivity.
 Qed.
+(* ---------------------------------------------------------------------------------------- *)
+(** * cu_find_span: int() truncation and the span == ncells branch *)
+
+(** what is assumed of [sptrunc] (Python int() on a non-negative float): floor *)
+Definition sp_trunc_ok : Prop := forall v, 0 <= v ->
+  (0 <= sptrunc K v)%Z /\ sp_ofZ F K (sptrunc K v) <= v /\ v < sp_ofZ F K (sptrunc K v) + 1.
+
+Notation ofn := (sp_ofnat F K).
+Lemma sp_ofnat_add a b : ofn (a + b) = ofn a + ofn b.
+Proof. unfold sp_ofnat. apply (ofnat_add F 0 1 (spadd K) (spmul K) (spsub K) (spdiv K) (spopp K) (spinv K) Fth). Qed.
+Lemma sp_ofnat_S a : ofn (S a) = ofn a + 1.
+Proof. reflexivity. Qed.
+Lemma sp_ofpos_ofnat p : sp_ofpos F K p = ofn (Pos.to_nat p).
+Proof.
+  induction p as [p IH|p IH|]; cbn [sp_ofpos].
+  - rewrite Pos2Nat.inj_xI, sp_ofnat_S. replace (2 * Pos.to_nat p)%nat with (Pos.to_nat p + Pos.to_nat p)%nat by lia.
+    rewrite sp_ofnat_add, IH. ring.
+  - rewrite Pos2Nat.inj_xO. replace (2 * Pos.to_nat p)%nat with (Pos.to_nat p + Pos.to_nat p)%nat by lia.
+    rewrite sp_ofnat_add, IH. ring.
+  - rewrite Pos2Nat.inj_1. cbn. unfold sp_ofnat. cbn [ofnat]. ring.
+Qed.
+Lemma sp_ofZ_ofnat z : (0 <= z)%Z -> sp_ofZ F K z = ofn (Z.to_nat z).
+Proof. intros H. destruct z as [|p|p]; cbn [sp_ofZ Z.to_nat]; [reflexivity|apply sp_ofpos_ofnat|lia]. Qed.
+Lemma sp_ofnat_nonneg n : 0 <= ofn n.
+Proof. induction n as [|n IH]; [apply sp_le_refl|]. rewrite sp_ofnat_S. apply sp_add_nonneg; [exact IH|exact sp_0_le_1]. Qed.
+Lemma sp_le_add_r a b : 0 <= b -> a <= a + b.
+Proof. intros H. replace a with (0 + a) at 1 by ring. replace (a + b) with (b + a) by ring. apply (spl_add_le K HK), H. Qed.
+Lemma sp_ofnat_mono a b : (a <= b)%nat -> ofn a <= ofn b.
+Proof. intros H. replace b with (a + (b - a))%nat by lia. rewrite sp_ofnat_add. apply sp_le_add_r, sp_ofnat_nonneg. Qed.
+Lemma sp_lt_irrefl_le a b : a < b -> b <= a -> False.
+Proof. intros [H1 Hne] H2. apply Hne. apply (spl_le_antisym K HK); assumption. Qed.
+Lemma sp_mul_le_r a b c : a <= b -> 0 <= c -> a * c <= b * c.
+Proof. intros H Hc. apply sp_nonneg_sub. replace (b * c - a * c) with ((b - a) * c) by ring.
+  apply (spl_mul_nonneg K HK); [apply sp_sub_nonneg, H|exact Hc]. Qed.
+Lemma sp_ofnat_inj_le a b : ofn a <= ofn b -> (a <= b)%nat.
+Proof.
+  intros H. destruct (Nat.le_gt_cases a b) as [Hle|Hgt]; [exact Hle|]. exfalso.
+  apply (sp_lt_irrefl_le (ofn b) (ofn b + 1)).
+  - split; [apply sp_le_add_r, sp_0_le_1|]. intros E. apply sp_1_neq_0.
+    replace 1 with ((ofn b + 1) - ofn b) by ring. rewrite <- E. ring.
+  - apply (spl_le_trans K HK) with (ofn a); [|exact H]. rewrite <- sp_ofnat_S. apply sp_ofnat_mono. lia.
+Qed.
+
+Theorem sp_cu_find_span_spec xmin xmax dx x n : sp_trunc_ok -> (1 <= n)%nat -> 0 < dx ->
+  xmax = xmin + ofn n * dx -> xmin <= x -> x <= xmax ->
+  exists s o, sp_cu_find_span F K xmin xmax dx x (Z.of_nat n) = SpOk (Z.of_nat s, o) /\
+    (3 <= s <= n + 2)%nat /\ x = tUk xmin dx s + o * dx /\ 0 <= o /\ o <= 1 /\ (o = 1 -> s = (n + 2)%nat).
+Proof.
+  intros Htr Hn1 Hdx Hmax Hlo Hhi. destruct Hdx as [Hdx0 Hdxne].
+  assert (Hdx : dx <> 0) by (intros E; apply Hdxne; symmetry; exact E).
+  unfold sp_cu_find_span. destruct (sp_eqb_spec dx 0) as [E|_]; [contradiction|]. cbv zeta.
+  set (v := (x - xmin) / dx).
+  assert (Hinv : 0 <= 1 / dx) by (apply sp_inv_nonneg; split; assumption).
+  assert (Hv0 : 0 <= v).
+  { unfold v. apply sp_div_nonneg; [apply sp_sub_nonneg, Hlo|split; assumption]. }
+  assert (Hvn : v <= ofn n).
+  { unfold v. replace ((x - xmin) / dx) with ((x - xmin) * (1 / dx)) by (field; exact Hdx).
+    replace (ofn n) with ((ofn n * dx) * (1 / dx)) by (field; exact Hdx).
+    apply sp_mul_le_r; [|exact Hinv]. apply sp_nonneg_sub.
+    replace (ofn n * dx - (x - xmin)) with (xmin + ofn n * dx - x) by ring. rewrite <- Hmax.
+    apply sp_sub_nonneg, Hhi. }
+  destruct (Htr v Hv0) as [Hk0 [Hk1 Hk2]]. set (k := sptrunc K v) in *.
+  rewrite (sp_ofZ_ofnat k Hk0) in *.
+  assert (Hkn : (Z.to_nat k <= n)%nat).
+  { apply sp_ofnat_inj_le. apply (spl_le_trans K HK) with v; assumption. }
+  assert (Hx : x = xmin + v * dx) by (unfold v; field; exact Hdx).
+  destruct (Z.eqb_spec k (Z.of_nat n)) as [Ek|Nk].
+  - (* right end point *)
+    exists (n + 2)%nat, 1. cbv iota. split; [f_equal; f_equal; lia|]. split; [lia|].
+    assert (Ev : v = ofn n).
+    { apply (spl_le_antisym K HK); [exact Hvn|]. replace n with (Z.to_nat k) by lia. exact Hk1. }
+    split.
+    + rewrite Hx, Ev. unfold tU. fold (sp_ofnat F K (n + 2)). rewrite sp_ofnat_add.
+      unfold sp_ofnat. cbn [ofnat]. unfold three, two. ring.
+    + split; [exact sp_0_le_1|]. split; [apply sp_le_refl|reflexivity].
+  - exists (Z.to_nat k + 3)%nat, (v - ofn (Z.to_nat k)). cbv iota.
+    split; [f_equal; f_equal; lia|]. split; [lia|]. split.
+    + rewrite Hx. unfold tU. fold (sp_ofnat F K (Z.to_nat k + 3)). rewrite sp_ofnat_add.
+      unfold sp_ofnat. cbn [ofnat]. unfold three, two. ring.
+    + split; [apply sp_sub_nonneg, Hk1|]. split.
+      * apply sp_nonneg_sub. replace (1 - (v - ofn (Z.to_nat k))) with (ofn (Z.to_nat k) + 1 - v) by ring.
+        apply sp_sub_nonneg, (proj1 Hk2).
+      * intros E. exfalso. apply (proj2 Hk2). replace v with ((v - ofn (Z.to_nat k)) + ofn (Z.to_nat k)) at 1 by ring.
+        rewrite E. ring.
+Qed.
 
 End Theory.
